@@ -386,6 +386,10 @@ func (p *Scripted) handle(s network.Stream) {
 	case "garbage", "truncated":
 		_, _ = s.Write(r.Raw)
 		s.Close()
+	case "silent":
+		// accepted the request and says nothing for a long while (a stream that honours deadlines lets the client give up)
+		time.Sleep(1500 * time.Millisecond)
+		s.Reset() //nolint:errcheck
 	case "hang":
 		// keep the stream open until the other side gives up
 		buf := make([]byte, 1)
